@@ -96,6 +96,9 @@ fixed("FX-deepcopy-of-tracer", ["C15"], "ce746a7", "copy.deepcopy of a traced va
 fixed("FX-jvp-writes-tangent-into-out-buffer", ["C02", "C06"], "e5d0bff", "forward mode with out=<buffer> on a function whose JVP is \"same\" / def_linear (multiply, negative, sum, cumsum, dot, outer, ...): the tangent was written into the buffer holding the primal result; value and derivative silently wrong", dict(case("multiply", [A(3), A(3) * 0.7 + 0.2], argnum=0, tags=["out_buffer"]), fresh_out=[[3], "float64"]), witness_mode="fwd")
 fixed("FX-power-exponent-zero-second-order", ["C07"], "04afaff", "x**y differentiated jointly in (x, y) at y exactly 0: the VJP/JVP w.r.t. x replaced the exponent by a constant there, so mixed second derivatives were wrong and reverse-over-reverse, forward-over-reverse and the FD of the gradient disagreed", dict(case("power", [onp.array([0.7, 1.3, 2.1]), 0.0], argnum=0, tags=["special_scalar"]), joint=[0, 1]))
 fixed("FX-grad-named-bound-method", ["C16"], "2d3ebd6", "grad_named(obj.method, name) (also class methods and callable objects) counted the implicit first parameter: the gradient was silently taken with respect to the FOLLOWING argument (IndexError for the last one)", {"kind": "map", "P": {"A": {"__nd__": "f", "dtype": "float64", "shape": [1, 1], "v": ["-0x1.47481ae1d7d70p+0"]}, "B": {"__nd__": "f", "dtype": "float64", "shape": [1], "v": ["0x1.49621fe60918bp-5"]}, "C": {"__nd__": "f", "dtype": "float64", "shape": [1], "v": ["-0x1.31b217c745700p-3"]}, "in": [1], "out": [1]}, "x": {"__nd__": "f", "dtype": "float64", "shape": [1], "v": ["-0x1.c4565b81de60cp-1"]}, "xkind": "array", "a": 1.0011082209541926, "b": 0.057087305600629024, "scale": 1.4627881084273395, "argform": "unary", "vseed": 607542720})
+fixed("FX-jvp-writes-tangent-into-positional-out-buffer", ["C02", "C06"], "d2ac487", "forward mode with the output buffer passed POSITIONALLY (np.multiply(a, b, buf), np.sum(a, None, None, buf)) on \"same\" / def_linear functions: the keyword-only repair e5d0bff still let the tangent overwrite the primal held by the buffer", dict(case("multiply", [A(3), 1.7], argnum=0, tags=["out_buffer", "out_positional"]), fresh_out=[[3], "float64"], fresh_out_pos=2), witness_mode="fwd")
+fixed("FX-array-dtype-change-gradient-kind", ["C05"], "bb974d5", "np.array(x, dtype=...) on an array / scalar argument with a dtype that changes kind or precision (real -> complex, double -> single): the cotangent was handed back unchanged, so a real argument got a complex gradient (a float64 one a float32 gradient)", case("array", [A(3)], {"dtype": complex}, tags=["dtype_change"]))
+fixed("FX-sinc-at-zero", ["C01", "C02", "C07"], "199cdf8", "np.sinc at exactly 0 (0/0 in the rule): NaN derivative in both modes at a point where the function is smooth; next to 0 the rule lost its digits to cancellation", case("sinc", [onp.array([0.3, 0.0, -0.7, -0.0, 1e-9])], tags=["zero_point"]))
 fixed("FX-where-jvp-broadcast", ["C05", "C02"], "423a953", "forward-mode np.where returned a tangent with the branch's shape/kind instead of the output's", case("where", [cc, A(3), A(2, 2, 3)], argnum=1), witness_mode="fwd")
 
 out = {"_comment": "Known findings: genuine defects of HIPS/autograd that are recorded rather than repaired (status open) and defects repaired by a 'fix:' commit (status fixed; fixed entries suppress nothing - their witnesses are re-run on every check and a failing one is an ordinary VIOLATION). `match` is a conjunction over fields of the case signature (lists = any of; {__re__}: regex; {__has__}: list membership); never a seed, hash or random value. Read-only at run time.", "findings": F}
